@@ -25,6 +25,9 @@ def run(ctx: Ctx):
     guards(ctx)
     wiring(ctx)
     footprint(ctx)
+    from .common import no_shared_writes
+
+    no_shared_writes(ctx, "no-shared-write")
 
 
 def guards(ctx: Ctx):
@@ -121,6 +124,34 @@ def guards(ctx: Ctx):
     dim = ctx.repo.cls("dimension.py", "Dimension")
     e = expand(ctx.repo, dim, "smoothing_dict", stop=lambda mm: True)
     ctx.check_expr("factory", "dimension.py::Dimension.smoothing_dict", e, "self._dimension_transforms_dict.get('smoother') or {}")
+    # whatever the spelling: the spec reaches the smoother UNCHANGED.  An empty dict is not "no smoothing" - the smoother
+    # reads it as the default spec (one-sided moving average, window 2) - so replacing a spec the smoother would have
+    # REFUSED (window wider than the periods, unknown function) by {} turns "left unsmoothed" into "smoothed with window 2".
+    from ..stmts import match_any
+
+    SPEC = "self._dimension_transforms_dict.get('smoother')"
+    bad, seen_spec = [], False
+    for gs, leaf in strip_ifexp_paths(e):
+        lt = u(leaf)
+        if SPEC in lt:
+            seen_spec = True
+        is_empty = lt in ("{}", "dict()")
+        if not is_empty:
+            continue
+        for g, pol in gs:
+            if not pol:
+                continue
+            for a in (g.values if isinstance(g, ast.BoolOp) and isinstance(g.op, ast.Or) else [g]):
+                t = u(a)
+                # the only reason to fall back on the empty spec is that there is no smoother entry at all
+                if t in (f"not {SPEC}", f"{SPEC} is None") or t.replace(SPEC, "S") in ("not S", "S is None", "not S or not isinstance(S, dict)"):
+                    continue
+                bad.append(t[:90])
+    where = "dimension.py::Dimension.smoothing_dict"
+    if bad:
+        ctx.violated("factory.spec-pass-through", where, bad, "{} only when the transforms carry no smoother entry", "a spec the smoother would refuse is replaced by the empty spec, which the smoother reads as window 2")
+    else:
+        ctx.ob("factory.spec-pass-through", where, "the smoother entry, or {} when there is none", "the spec reaches the smoother unchanged", True if seen_spec else None)
 
 
 def wiring(ctx: Ctx):
